@@ -164,8 +164,9 @@ def run(chk):
         if c['kinds']:
             by_kind.setdefault('+'.join(sorted(c['kinds'])), []).append(c)
     special = [c for c in cases if c['wb']['services'] or c['inconsistent']]
-    for k in sorted(by_kind):                    # quick: every violation kind, at most 12 workbooks of each
-        special += rng.sample(by_kind[k], min(12, len(by_kind[k])))
+    for k in sorted(by_kind):                    # quick: every mutated workbook; of the kind that also arises
+        cap = 12 if len(by_kind[k]) > 40 else len(by_kind[k])      # naturally in the product (two rows on an ILA) 12
+        special += rng.sample(by_kind[k], cap)
     undecided = [c for c in cases if c['undecided']]
     plain = [c for c in cases if not (c['kinds'] or c['wb']['services'] or c['undecided'] or c['inconsistent'])]
     todo = cases if chk.tier == 'thorough' else \
